@@ -63,7 +63,7 @@ func (p *Prog) newBareVC(pkgPath, name string) *VC {
 	vc := &VC{p: p, u: p.u, fi: fi, spec: &FuncSpec{Key: name, Loops: map[int]*LoopSpec{}, Opts: map[string]string{}}, info: fi.Pkg.TypesInfo, pkg: pk,
 		declSeen: map[string]bool{}, heap0: map[string]Term{}, heapSort: map[string]string{}, heapElemT: map[string]types.Type{},
 		counters: map[string]int{}, params: map[string]types.Object{}, paramTerm: map[string]Term{},
-		closures: map[string]*funcVal{}, usedLoops: map[int]bool{}, usedSpecs: map[string]bool{}, usedAnchors: map[string]bool{}, lazyHeaps: map[string]Term{}, ts: TSubst{}}
+		closures: map[string]*funcVal{}, usedLoops: map[int]bool{}, usedSpecs: map[string]bool{}, usedAnchors: map[string]bool{}, lazyHeaps: map[string]Term{}, havocKnown: map[string]map[string]bool{}, ts: TSubst{}}
 	vc.declare("alloc@0", "Int")
 	vc.base = append(vc.base, "(>= alloc@0 1)")
 	return vc
